@@ -304,9 +304,33 @@ func c14Worker(w *W) {
 			names = append(names, c.FileName+".wf")
 		}
 		started := true
-		for _, a := range aps {
-			if err := a.Start(); err != nil {
+		var viaLogger *log.RollingFileLogger
+		if c.Sibling && ci%2 == 1 {
+			// the pair 'name' / 'name.wf' as the rolling-file LOGGER creates it (separate=true): whatever the two
+			// appenders share, each must still clean its own expired files
+			viaLogger = &log.RollingFileLogger{LoggerBase: log.LoggerBase{Name: "lg"}, FileDir: dir, FileName: c.FileName, Separate: true,
+				Rotation: log.TimeRotation{Interval: interval}, MaxAge: c.MaxAge}
+			aps = aps[:0]
+			if err := viaLogger.Start(); err != nil {
 				started = false
+			} else {
+				_, refs := viaLogger.VerifInner()
+				for _, rf := range refs {
+					if a, ok := rf.Appender.(*log.RollingFileAppender); ok {
+						aps = append(aps, a)
+					}
+				}
+				if len(aps) != 2 {
+					w.Note(fmt.Sprintf("rolling logger with separate=true has %d rolling appenders", len(aps)))
+					started = false
+				}
+				w.Count("pairs_created_by_the_rolling_logger", 1)
+			}
+		} else {
+			for _, a := range aps {
+				if err := a.Start(); err != nil {
+					started = false
+				}
 			}
 		}
 		if !started {
@@ -400,8 +424,12 @@ func c14Worker(w *W) {
 			}
 			w.Count("second_scans", 1)
 		}
-		for _, a := range aps {
-			a.Stop()
+		if viaLogger != nil {
+			viaLogger.Stop()
+		} else {
+			for _, a := range aps {
+				a.Stop()
+			}
 		}
 		if time.Since(t0) > 9*time.Minute {
 			w.Inconclusive("case took longer than the 10-minute margin around the cut-off")
